@@ -6,6 +6,8 @@
 // bodies below are never run by the library.
 package verifspec
 
+import "reflect"
+
 import "unsafe"
 
 // Eq is structural equality: field-wise on structs, observational on
@@ -46,13 +48,13 @@ func Calls(n int) bool { return rt().calls() == n }
 func Panics(f func() any) bool { return rt().panics(f) }
 
 // Fresh: the pointer / slice backing array was allocated by the function under contract.
-func Fresh(a any) bool { panic("verifspec: ghost function") }
+func Fresh(a any) bool { return rt().fresh(a) }
 
 // Unchanged: the function under contract wrote to no memory that existed before the call.
-func Unchanged() bool { panic("verifspec: ghost function") }
+func Unchanged() bool { return rt().unchanged() }
 
 // Len of a slice value.
-func Len(a any) int { panic("verifspec: ghost function") }
+func Len(a any) int { rt(); return reflect.ValueOf(a).Len() }
 
 // Pair / P2 … turn multi-value results into one value for Eq / EqT.
 type Pair[A, B any] struct {
@@ -86,12 +88,18 @@ func SameArray(a, b any) bool { panic("verifspec: ghost function") }
 // abiding sources over a finite sequence:
 // IterLen(it) its length, IterAt[T](it, i) its i-th element, IterPos(it) how
 // many elements have been pulled from it so far.
-func IterLen(it any) int            { panic("verifspec: ghost function") }
-func IterPos(it any) int            { panic("verifspec: ghost function") }
+func IterLen(it any) int { return rt().source(it).n }
+func IterPos(it any) int { return rt().source(it).pos }
 
 // IterProbes(it): how many times HasNext of the input iterator it has been called so far.
-func IterProbes(it any) int { panic("verifspec: ghost function") }
-func IterAt[T any](it any, i int) T { panic("verifspec: ghost function") }
+func IterProbes(it any) int { return rt().source(it).probes }
+func IterAt[T any](it any, i int) T {
+	s := rt().source(it)
+	if i < 0 || i >= s.n {
+		return *new(T) // outside the sequence the element is unconstrained; contracts only read it under a range guard
+	}
+	return s.at(i).(T)
+}
 
 // Do runs a statement-like thunk inside an expression (for Panics / EqT).
 func Do(f func()) int { f(); return 0 }
@@ -129,6 +137,10 @@ func AssertPure(b bool) {}
 // predicate; Reveal adds its definition for this one instance (app == body), so that it can be
 // unfolded or established where the proof needs it and stays opaque elsewhere.
 func Reveal(b bool) {}
+
+// GhostOn guards the ghost statements that the verifier injects into function bodies (in-memory copies);
+// a contract with `option noghost` runs the functions without them.
+func GhostOn() bool { return false }
 
 // Cell reads the variable called name captured (transitively) by the closures of root.
 func Cell[T any](root any, name string) T { panic("verifspec: ghost function") }
